@@ -14,6 +14,8 @@ var freeIdents = []string{"a", "b", "x1", "Foo", "k/y", "a_b", "inx", "nota", "o
 var freeOddParts = []string{"k~z", "k.w", "k:v", "k|p", "é", "日本", "0", "10", "007", "k y", "", " a", `q"t`, "b`t", "s/l~t", "~1", "~0", "/", "-", "_", "in", "not", "and", "a\tb", "\xff"}
 
 // FreeSel draws an expressible selector of 1..4 parts.
+var unicodeWordRunes = []rune("²³¹¼½¾ªµºÀßÿĀʰͰΩЖאب٣۹०๓༣၃፩០᠐ⁿ₂⅓Ⅷⅿↀ①⑳⒈⓪❶〇〡㉑㊿一龥가𝟘𝟿𐒠🄋aZ09_")
+
 func FreeSel(t *rapid.T) bx.Sel {
 	if rapid.IntRange(0, 39).Draw(t, "emptyPointer") == 0 {
 		return bx.Sel{Parts: []string{""}} // written ""
@@ -26,7 +28,11 @@ func FreeSel(t *rapid.T) bx.Sel {
 				parts[i] = freeIdent(t, "ident")
 				continue
 			}
-			switch rapid.IntRange(0, 2).Draw(t, "partKind") {
+			switch rapid.IntRange(0, 3).Draw(t, "partKind") {
+			case 3:
+				// letters and numbers of every Unicode category the JSON Pointer segment class admits (\pL, \pN):
+				// Latin-1 ones (superscripts, fractions, ordinal indicators, micro sign) and others
+				parts[i] = rapid.StringOfN(rapid.RuneFrom(unicodeWordRunes), 1, 3, -1).Draw(t, "upart")
 			case 0:
 				parts[i] = freeIdents[rapid.IntRange(0, len(freeIdents)-1).Draw(t, "ident")]
 			case 1:
